@@ -602,8 +602,27 @@ def run(check, an: Analysis):
                 check.instance('P', 'Process.interrupt:only-alive', alive is True,
                                event.where, 'interrupts are queued only while the process '
                                'has not finished', path=rules.path_lines(path, index))
+    check_interrupt_never_refused(check, an, 'P')
     check_interrupt_wins(check, an, 'P')
     _run_after_interrupts(check, an)
+
+
+def check_interrupt_never_refused(check, an: Analysis, rule: str):
+    """`interrupt(cause)` is queued for a live process and ignored for a finished one: it
+    never raises, whoever calls it (a callback, an activity, the process that evicts
+    another -- or itself -- from a resource)"""
+    interrupt = an.callee(PROCESS, 'interrupt')
+    paths = an.paths(interrupt)
+    raising = [p for p in paths if p.kind == 'raise']
+    live = [p for p in paths if p.normal and any(
+        tested(e, ('isnone', 'self._value'), True) for e in p.events)]
+    queued = all(any(is_call_to(e, 'push') for e in p.events) for p in live)
+    check.instance(rule, 'Process.interrupt:never-refused', not raising and bool(live)
+                   and queued, where_fn(interrupt.fn),
+                   'no path of interrupt() raises; every path for a live process queues the '
+                   'cause (%d paths, %d for a live process)' % (len(paths), len(live)),
+                   path=rules.path_lines(raising[0]) if raising else None,
+                   analysed=len(paths))
 
 
 def check_interrupt_wins(check, an: Analysis, rule: str):
@@ -891,6 +910,23 @@ def _run_after_flatten(check, an: Analysis):
                    'after the past was rejected (%d waits on paths)' % n_wait,
                    path=rules.path_lines(*bad) if bad and not wait_ok else None,
                    analysed=n_wait)
+    # a stop is never raised in the turn the environment was entered: whatever is waited
+    # for -- also an event that has triggered already -- the wait suspends at least once,
+    # which is when the processes and callbacks queued at start-up get their first turn
+    n_stops, hasty = 0, None
+    for path in upaths:
+        for index, event in enumerate(path.events):
+            if event.kind == 'raise' and event.depth == 0 and event.get('exc') == STOP:
+                n_stops += 1
+                entered = [i for i, e in enumerate(path.events[:index])
+                           if e.kind == 'susp' and e.data.get('how') == 'aenter'
+                           and e.depth == 0]
+                if not entered or not path.must_suspended(entered[-1] + 1, index):
+                    hasty = hasty or (path, index)
+    check.instance('U', 'until:waits-at-least-once', hasty is None and n_stops > 0,
+                   where_fn(until.fn), 'between entering the environment and StopSimulation '
+                   'lies a suspension that must suspend (%d stops on paths)' % n_stops,
+                   path=rules.path_lines(*hasty) if hasty else None, analysed=n_stops)
     check.instance('U', 'until:stop-absorbed', stop_ok and absorbed > 0, where_fn(until.fn),
                    'after the wait StopSimulation ends the environment\'s scope and is '
                    'absorbed', path=rules.path_lines(*bad) if bad and not stop_ok else None)
